@@ -517,3 +517,91 @@ pub fn ignore_worker(ctx: &mut Ctx) {
         ctx.report.notes.push("harper_wasm::Linter::ignore_lint with imported user words next to the flagged text: gone afterwards, nothing with another message or flagged text hidden, export -> import into a second linter equivalent".into());
     }
 }
+
+// ------------------------------------------------------------------------------------------
+// C15 through the JS API: the linter's dictionary is the curated one merged with the user's words.
+// Whatever the batching history of `import_words`, a word the user dictionary holds (it is in
+// `export_words`) is in the merged view in that exact spelling: the spell checker accepts it.
+
+pub fn dict_worker(ctx: &mut Ctx) {
+    use harper_core::{Dictionary, FstDictionary};
+    let fst = FstDictionary::curated();
+    let mut all: Vec<String> = fst.words_iter().map(|w| w.iter().collect::<String>()).collect();
+    all.sort();
+    // lower-case forms of capitalised-only entries whose curated twin is valid in every dialect
+    let lowered: Vec<String> = all
+        .iter()
+        .filter(|w| w.len() >= 4 && w.len() <= 12 && w.chars().all(|c| c.is_ascii_alphabetic()))
+        .filter_map(|w| {
+            let l = w.to_lowercase();
+            (*w != l && w[1..] == l[1..] && !fst.contains_exact_word_str(&l) && fst.get_word_metadata_str(w).is_some_and(|m| m.dialect.is_none())).then_some(l)
+        })
+        .collect();
+    let novel = ["zxqvish", "blorptastic", "snarfle", "quuxly", "frobnicate", "wibblewobble", "harperesque", "mrrglton"];
+    let n = ctx.share(2_000, 120_000);
+    let mut rng = ctx.rng("wasmdict");
+    let dialects = [harper_wasm::Dialect::American, harper_wasm::Dialect::British, harper_wasm::Dialect::Australian, harper_wasm::Dialect::Canadian];
+    for k in 0..n {
+        let seed = rng.next();
+        let mut r = Rng(seed);
+        if !ctx.begin_case(|| json!({"fam": "wasmdict", "seed": seed}).to_string()) {
+            continue;
+        }
+        let mut lin = Linter::new(dialects[(k % 4) as usize]);
+        let mut imported: Vec<String> = Vec::new();
+        let mut batches: Vec<Vec<String>> = Vec::new();
+        let res = guarded(|| {
+            let mut out: Vec<(String, String)> = Vec::new();
+            for _ in 0..r.range(1, 4) {
+                let mut batch: Vec<String> = Vec::new();
+                // some batches hold only re-cased forms of words the curated dictionary knows, some only new words, some both
+                let kind = r.below(3);
+                for _ in 0..r.range(1, 3) {
+                    let w = if kind == 0 || (kind == 2 && r.chance(1, 2)) { r.pick(&lowered).clone() } else { r.pick_str(&novel).to_string() };
+                    if !imported.iter().any(|x| x.eq_ignore_ascii_case(&w)) && !batch.iter().any(|x| x.eq_ignore_ascii_case(&w)) {
+                        batch.push(w);
+                    }
+                }
+                if batch.is_empty() {
+                    continue;
+                }
+                lin.import_words(batch.clone());
+                imported.extend(batch.iter().cloned());
+                batches.push(batch);
+                let exported = lin.export_words();
+                for w in &imported {
+                    if !exported.contains(w) {
+                        out.push(("js.export-lost-word".into(), format!("{w:?} was imported but export_words returns {:?}", exported)));
+                        continue;
+                    }
+                    let text = format!("We like {w} here.");
+                    let at = 8;
+                    let hit = lin.lint(text.clone(), Language::Plain).into_iter().find(|l| l.lint_kind() == "Spelling" && l.span().start < at + w.chars().count() && at < l.span().end);
+                    if let Some(l) = hit {
+                        let kind = if novel.contains(&w.as_str()) { "new-word" } else { "recased-known-word" };
+                        out.push((format!("js.merged-view-misses-user-word@{kind}"), format!("{w:?} is in the user dictionary (export_words lists it) but the linter's merged dictionary does not accept it: {}", l.message())));
+                    }
+                }
+            }
+            out
+        });
+        ctx.report.evaluations += imported.len() as u64;
+        ctx.report.nontrivial(fnv_mix(batches.len() as u64, fnv(imported.join(",").as_bytes())));
+        let wit = || json!({"import_words_batches": batches});
+        match res {
+            Err(p) => ctx.report.finding("C01", &format!("panic@wasm.import/{}", p.sig()), imported.len(), wit, || p.msg.clone()),
+            Ok(out) => {
+                for (sig, detail) in out {
+                    ctx.report.finding("C15", &sig, imported.len(), wit, || detail.clone());
+                }
+            }
+        }
+        if ctx.report.samples.len() < 3 {
+            ctx.report.samples.push(json!({"import_words_batches": batches}));
+        }
+        ctx.end_case();
+    }
+    if ctx.shard == 0 {
+        ctx.report.notes.push(format!("harper_wasm::Linter import_words histories ({} re-cased forms of capitalised-only curated entries, {} new words): every word export_words lists must be accepted in that spelling by the linter's merged dictionary", lowered.len(), novel.len()));
+    }
+}
